@@ -366,6 +366,8 @@ def work(item):
 
 
 def run(ctx):
+    from . import _large
+    _large.c18(ctx)           # lengths on both sides of 2**8, 2**12, 2**16 (see _large.py)
     st = state()
     items = []
     for ti, (T, cls) in enumerate(TYPES):
@@ -420,6 +422,20 @@ def run(ctx):
 
 
 def replay(detail):
+    if detail.get("large"):
+        from . import _large
+
+        class _C(object):
+            n = 0
+
+            def count(self, *a):
+                pass
+
+            def violation(self, sig, d):
+                _C.n += 1
+                print("VIOLATED", sig, d)
+        _large.c18(_C())
+        return 1 if _C.n else 0
     st = state()
     T = detail["type"]
     cls = dict(TYPES)[T]
